@@ -78,7 +78,10 @@ def cases(tier, seed):
     named = corpus.named_convex()
     out = []
     for name, pts in named.items():
-        for pname, R, t in corpus.placements():
+        places = corpus.placements()
+        if name.startswith(("flat_", "needle_")):
+            places = places[:1] + corpus.far_placements()      # ill-conditioned: rotated and 5-9 diameters off the origin
+        for pname, R, t in places:
             out.append((f"{name}/{pname}", corpus.place(pts, R, t), pts))
     lat = corpus.lattice_convex_sets(limit=25 if tier == "quick" else 150, seed=0)
     for i, pts in enumerate(lat):
